@@ -1,5 +1,4 @@
-import ClusterVerif.Spec.C07
-import ClusterVerif.Gen.C07
+import ClusterVerif.Model.C07Sys
 import Driver.Parse
 /-!
 C07 driver. Case lines (after the leading `C07` token):
@@ -48,10 +47,6 @@ def parseCaller (s : String) : Option Caller :=
   if s == "self" then some .self
   else if s.startsWith "r" then (s.drop 1).toNat?.map .remote else none
 
-def shapeOf : Mode → ConsensusShape
-  | .raft => Gen.raft
-  | .crdt => Gen.crdt
-
 def showObs : Obs → String
   | .refused => "refused"
   | .passed => "passed"
@@ -62,14 +57,8 @@ def dedupNat : List Nat → List Nat
 
 def sameSet (a b : List Nat) : Bool := a.all b.contains && b.all a.contains
 
-/-- what ipfs-cluster-follow does to the table -/
-def followerOverrides : List (String × Option Int) := [("Cluster.RepoGCLocal", some Gen.constClosed)]
-
 def kindOk (k : PolicyKind) (ovs : List (String × Option Int)) : Bool :=
-  match k with
-  | .shipped => ovs.isEmpty
-  | .follower => ovs == followerOverrides
-  | .custom => true
+  k == .custom || ovs == kindOverrides k
 
 def failedNames (cl : List (String × Bool)) : List String := (cl.filter (fun c => !c.2)).map (·.1)
 
@@ -90,7 +79,7 @@ def answerRpc (pre post : List String) : String :=
                             caller := caller, ep := ep, registered := registered }
       let trusted := match caller with
         | .self => true
-        | .remote p => trustedAfter (shapeOf m) raw ops self p
+        | .remote p => modelTrusted i.ts self p
       let arm :=
         (match caller with | .self => "self" | .remote _ => if trusted then "trusted" else "untrusted") ++ "/" ++
         (if !registered then "no-endpoint" else
@@ -98,10 +87,7 @@ def answerRpc (pre post : List String) : String :=
         ++ (if k == .custom then "/custom" else "")
       let failed := failedNames (rpcClauses i o)
       if !failed.isEmpty then "propfail " ++ ",".intercalate failed ++ " arm=" ++ arm else
-      -- an unregistered name never reaches authorization: gorpc answers "no such method"
-      let expected : Obs :=
-        if !registered then .passed
-        else if passes Gen.closure pol (shapeOf m) raw ops self caller ep then .passed else .refused
+      let expected : Obs := modelObs i ovs
       if o != expected then "diff arm=" ++ arm ++ " model=" ++ showObs expected
       else "ok arm=" ++ arm ++ (if rpcApplies i && caller != .self then "" else " trivial")
   | _, _ => "bad-case rpc-arity"
@@ -116,7 +102,7 @@ def answerTrust (pre post : List String) : String :=
     | none => "bad-case trust-parse"
     | some (m, raw, ops, self, p, o) =>
       let i : TrustInput := { ts := { mode := m, raw := raw, ops := ops }, self := self, p := p }
-      let expected := trustedAfter (shapeOf m) raw ops self p
+      let expected := modelTrusted i.ts self p
       let arm := (if m == .raft then "raft" else if starListed raw then "crdt-star" else if raw.isEmpty then "crdt-empty" else "crdt-list")
         ++ (if ops.isEmpty then "" else "+calls") ++ (if p == self then "/self" else if expected then "/trusted" else "/untrusted")
       let failed := failedNames (trustClauses i o)
@@ -148,7 +134,7 @@ def answerRep (pre post : List String) : String :=
     | some (raw, ops, self, before, msgs, after) =>
       let i : RepInput := { ts := { mode := .crdt, raw := raw, ops := ops }, self := self, before := before, msgs := msgs }
       let cfg := parseTrusted raw []
-      let expected := deliverAll Gen.crdt cfg self (stateAfter Gen.crdt cfg ops) before msgs
+      let expected := modelRep i
       let untrusted := msgs.filter (fun m => !(accepts Gen.crdt cfg self (stateAfter Gen.crdt cfg ops) m))
       let arm := if untrusted.isEmpty then "all-trusted" else if untrusted.length == msgs.length then "all-untrusted" else "mixed"
       let failed := failedNames (repClauses i after)
